@@ -16,4 +16,9 @@ def seedArguments : List (String × String × String × String × String) := [
   ("opendsm/eemeter/models/hourly/model.py", "_cluster_time_series", "_bisect_k_means.BisectingKMeans", "random_state", "seed + i"),
   ("opendsm/common/hourly_interpolation.py", "multiple_imputation", "dict", "random_state", "None")]
 
+/-- memoising decorators: only per-instance `cached_property` of the metrics frames (state that dies with the object) -/
+def memoisedFunctions : List (String × String × String) := [
+  ("opendsm/common/metrics.py", "BaselineMetrics._df", "cached_property"),
+  ("opendsm/common/metrics.py", "ReportingMetrics._df", "cached_property")]
+
 end EEM.Spec.Nondet
